@@ -53,4 +53,27 @@ def msgQueueLoop {β : Type} : List (QItem β) → List β × Bool      -- (disp
   | .exc :: _ => ([], true)
   | .item x :: rest => let r := msgQueueLoop rest; (x :: r.1, r.2)
 
+/-- what a websocket hands to a transport's message pump: a binary message, any other kind of
+message (text, ping, ...), or the iteration failing -/
+inductive WsMsg where
+  | binary (b : Bytes)
+  | other
+  | fail
+deriving Repr, DecidableEq
+
+/-- frames one binary message contributes: `FrameParser.receive_data(message, 0)`; the empty
+message yields nothing -/
+def bodyItems {β : Type} (parse : Bytes → List β) : WsMsg → List β
+  | .binary b => if b = [] then [] else parse b
+  | _ => []
+
+/-- the message pump of the websocket transports (`handle_incoming_ws_messages`): binary messages
+are parsed and their frames queued, other messages are skipped; when the iteration fails the client
+transport queues a transport error (`queuesFailure`), the server-side one lets it propagate to the
+web framework's handler -/
+def pump {β : Type} (queuesFailure : Bool) (parse : Bytes → List β) : List WsMsg → List (QItem β)
+  | [] => []
+  | .fail :: _ => if queuesFailure then [.exc] else []
+  | m :: r => (bodyItems parse m).map .item ++ pump queuesFailure parse r
+
 end RSocketModel.Transport
